@@ -70,9 +70,14 @@ Accepted subset (anything else raises TranslateError with file:line):
               canonical order (by type, then first binding); every generated definition takes
               the whole context of its group as explicit parameters, used or not.
 
+Not accepted (refused, like everything else outside the list above): while, break, continue,
+for ... else, enumerate in a function that touches the file system, `*` and int - int,
+generator expressions, starred / keyword arguments, lambdas, nested defs.
+
 What the translation does NOT model: exceptions other than the listed ones (a failing
-open / unlink because of permissions or missing directories, an unknown codec name);
-printing; object identity (mutation is accepted on locals the function owns and on the
+open / unlink because of permissions or missing directories, an unknown codec name,
+ZeroDivisionError: the division of a numops is total); printing (print_statistics(..) is
+taken to print only); object identity (mutation is accepted on locals the function owns and on the
 listed in-place parameters only; aliasing such an object is refused); a Counter key None is
 its str(); os.walk is evaluated when the loop starts, directories without files are not
 listed and the order of the directories is the order of the files in the model's map;
@@ -961,6 +966,22 @@ class FnTr:
             self.fail(node, "mutation is supported on a local object the function owns / a parameter the "
                             "specification lists as updated in place only")
 
+    @staticmethod
+    def stored_objects(v):
+        """the sub-expressions of v whose value (the object itself, not a copy or a function of it) ends up in
+        the value of v: v itself, the items of displays, the branches of a conditional expression"""
+        out, todo = [], [v]
+        while todo:
+            e = todo.pop()
+            out.append(e)
+            if isinstance(e, (ast.List, ast.Tuple, ast.Set)):
+                todo += list(e.elts)
+            elif isinstance(e, ast.Dict):
+                todo += [x for x in e.values if x is not None]
+            elif isinstance(e, ast.IfExp):
+                todo += [e.body, e.orelse]
+        return out
+
     def assign(self, s, rest, env, k, ind):
         if len(s.targets) != 1:
             self.fail(s, "multiple assignment targets")
@@ -979,9 +1000,13 @@ class FnTr:
             text, ty = self.expr(v, env)
             owned = isinstance(v, (ast.List, ast.Dict, ast.ListComp)) or \
                 (isinstance(v, ast.Call) and dotted(v.func) in (("list",), ("ConfigParser",)))
-            src = self.var_of(v, env)
-            if src is not None and isinstance(ty, tuple) and ty[0] in ("list", "dict") or (src is not None and ty == CONFIG):
-                env.owned.discard(src)          # an alias: neither name may be used to mutate the object from here on
+            for m in self.stored_objects(v):    # an alias (also inside a display): the aliased object may no longer be
+                src = self.var_of(m, env)       # mutated through its old name, nor through the new one
+                if src is not None and (env.types[src] == CONFIG or
+                                        (isinstance(env.types[src], tuple) and env.types[src][0] in ("list", "dict"))):
+                    env.owned.discard(src)
+                    if m is v:
+                        owned = False
             if isinstance(t, ast.Tuple):
                 if not (isinstance(ty, tuple) and ty[0] == "tuple"):
                     self.fail(s, "unpacking of a %s" % type_name(ty))
@@ -1597,11 +1622,14 @@ def markov_slice(path, fn):
     return idx[0], idx[-1] + 1
 
 
+WATCHED_VARS = {"num_valid_passwords": "count:=", "pcfg_parser": "parser:="}
+
+
 def call_events(path, fn, lo, hi):
     """the order of the calls of run_trainer that matter to the saved grammar, as a list of strings"""
     watched_attr = {"read_password": "loop", "process_password": "pass:alphabet", "train": "pass:multiword",
                     "parse": None, "apply_smoothing": "omen:smoothing"}
-    watched_name = {"TrainerFileInput": "input", "PCFGPasswordParser": "new-parser", "find_omen_level": "pass:level",
+    watched_name = {"TrainerFileInput": "input", "find_omen_level": "pass:level",
                     "calc_omen_keyspace": "omen:keyspace", "save_config_file": "save:config",
                     "save_omen_rules_to_disk": "save:omen", "save_pcfg_data": "save:pcfg"}
     events = []
@@ -1641,10 +1669,20 @@ def call_events(path, fn, lo, hi):
                 visit(st)
             return
         if isinstance(node, ast.Assign) and len(node.targets) == 1 and isinstance(node.targets[0], ast.Name) \
-                and node.targets[0].id == "num_valid_passwords":
+                and node.targets[0].id in WATCHED_VARS:
             visit(node.value)
-            events.append("count:=" + ast.unparse(node.value).replace(" ", ""))
+            events.append(WATCHED_VARS[node.targets[0].id] + ast.unparse(node.value).replace(" ", "").replace('"', "'"))
             return
+        if isinstance(node, (ast.Assign, ast.AugAssign, ast.AnnAssign, ast.For, ast.With, ast.NamedExpr, ast.Delete,
+                             ast.Import, ast.ImportFrom, ast.ExceptHandler, ast.Global, ast.Nonlocal)):
+            # any other way of (re)binding one of the watched variables
+            bound = [n.id for n in ast.walk(node) if isinstance(n, ast.Name) and isinstance(n.ctx, (ast.Store, ast.Del))]
+            bound += [a.asname or a.name for a in getattr(node, "names", []) if isinstance(a, ast.alias)]
+            bound += [node.name] if isinstance(node, ast.ExceptHandler) and node.name else []
+            bound += list(getattr(node, "names", [])) if isinstance(node, (ast.Global, ast.Nonlocal)) else []
+            for b in bound:
+                if b in WATCHED_VARS:
+                    events.append(WATCHED_VARS[b] + "?")
         for ch in ast.iter_child_nodes(node):
             visit(ch)
 
